@@ -116,12 +116,22 @@ def tokenize(line, version):
     if rt in table:
         n = table[rt]
     else:
-        # custom record: positional = leading fields that are not tags
-        n = 0
-        for x in f[1:]:
-            if TAG_RE.match(x):
+        # custom record: the tags are the maximal run of fields at the END of the line each of which can be a tag (tag syntax, a name
+        # not carried by a later tag, a value its datatype accepts); everything before is positional
+        n = len(f) - 1
+        seen = set()
+        for i in range(len(f) - 1, 0, -1):
+            m = TAG_RE.match(f[i])
+            if not m or m.group(1) in seen:
                 break
-            n += 1
+            try:
+                from specs import grammar as _g
+                if _g.value_ok(m.group(2), m.group(3)) is False:
+                    break
+            except Exception:
+                pass
+            seen.add(m.group(1))
+            n = i - 1
     pos, rest = f[1:1 + n], f[1 + n:]
     tags = {}
     for t in rest:
